@@ -440,8 +440,21 @@ func C17_introspect() {
 	}
 	sym.Budget(60_000_000)
 	sym.Assert(root.ParseString(src) == nil, "model schema accepted")
+	lateLoad := sym.Choice("late load", 2) == 1
+	if lateLoad {
+		// a request, then a second load adding an implementer of I and a union member
+		_ = root.ResolveString(c17Query(include), "", nil)
+		late := &mType{kind: "OBJECT", name: "Late", interfaces: []string{"I"}, fields: []mField{{name: "x", typ: mRef{"Int", 0}}, {name: "l", typ: mRef{"En", 3}}}}
+		sym.Assert(root.ParseString(late.sdl()+"extend union U = Late\n") == nil, "later load accepted")
+		m.types = append(m.types, late)
+		for _, t := range m.types {
+			if t.name == "U" {
+				t.members = append(t.members, "Late")
+			}
+		}
+	}
 	sdlBefore := root.SDL(true, true)
-	if sym.Choice("other request first", 2) == 1 {
+	if !lateLoad && sym.Choice("other request first", 2) == 1 {
 		// an earlier introspection request with the other setting must not matter
 		_ = root.ResolveString(c17Query(!include), "", nil)
 	}
